@@ -29,3 +29,22 @@ package diff
 //@ func loadPackagesFromSource
 //@   noframe
 //@   ensures [C15.site] true
+
+// ---- C17: bounded work
+// Instruction-equivalence comparisons in matchUsers stay within |usersOld| x MaxCandidates (ghost counter cmp).
+//@ func (*Zipper).matchUsers
+//@   noframe
+//@   ghost cmp int
+//@   init cmp = 0
+//@   call (*Zipper).areEquivalent update cmp = cmp + 1
+//@   ensures [C17.work] cmp <= len(usersOld) * MaxCandidates
+//@   loop 1 invariant [C17.work] forall fp: string :: len(newByOp[fp]) <= MaxCandidates
+//@   loop 2 invariant [C17.work] 0 <= #i && #i <= len(usersOld) && cmp <= #i * MaxCandidates && (forall fp: string :: len(newByOp[fp]) <= MaxCandidates)
+//@   loop 3 invariant [C17.work] 0 <= #i && #i <= len(candidates) && cmp <= pre(cmp) + #i
+
+// Oversized functions are rejected before any canonicalisation work is done.
+//@ func GenerateFingerprint
+//@   noframe
+//@   call (*Canonicalizer).CanonicalizeFunction assert [C17.cap] len(fn.Blocks) <= MaxFunctionBlocks
+//@   call computeVirtualControlFlow assert [C17.cap] len(fn.Blocks) <= MaxFunctionBlocks
+//@   ensures [C17.cap] true
